@@ -13,7 +13,8 @@ import itertools
 from .common import C, Nat, Opt, Raw, Rec, Str, coq
 
 ID = "C01"
-COQ_FILES = ["C01/Model.v", "C01/Spec.v", "C01/Check.v", "C01/Proofs.v", "C01/Property.v"]
+COQ_FILES = ["C01/Model.v", "C01/Spec.v", "C01/Check.v", "C01/Proofs.v", "C01/Occ.v", "C01/PlanState.v", "C01/PlanEq.v",
+             "C01/Property.v"]
 COQ_PRELUDE = ("From Coq Require Import ZArith List Bool String.\nImport ListNotations.\n"
                "From KD Require Import C01.Model C01.Spec C01.Check.\nOpen Scope Z_scope.\n")
 COQ_CHECK = "check"
@@ -22,24 +23,31 @@ SHARD = 100
 TRUSTED = [
     "hand-written model coq/C01/Model.v of ModeWrapper.__init__/__getitem__/__iter__/__len__, the static helpers "
     "has_item/add_item/get_item_index/get_item/set_item and TorchWrapper.getitem_*; tied to KD_REPO by this run's "
-    "correspondence evaluation (fused plan, propagate_ctx, every returned sample, the outermost loader calls)",
+    "correspondence evaluation (fused plan = zip(fused_items, fused_to_idxs), propagate_ctx, every returned sample, "
+    "the loader calls the stack received, constructor exceptions)",
     "the dataset stack below the ModeWrapper is abstracted into what it answers (len, fused_operations, "
     "requires_propagate_ctx, hasattr(type(ds)/ds, getitem_*), loader results + ctx writes); KDDataset/KDWrapper/"
     "KDSubset/TorchWrapper attribute delegation is exercised by the real stack and cross-checked against the declared "
-    "stack by the Python oracle, not proved",
-    "Python semantics cited: str.split(' '), list.index, range(n)[slice] (PySlice_AdjustIndices), dict as ctx, "
-    "isinstance(batch, (list, tuple)); exercised against CPython on every case",
-    "harness/c01.py: stack builder with token loaders, depth-0 call log, canonicalisation of samples",
+    "stack by the Python oracle on every case, not proved",
+    "a loader is modelled as a function (item, index, ctx) -> (value, ctx): Python loaders mutate the dict they are "
+    "handed; theorem ctx_fresh assumes they cannot replace it (writes_within)",
+    "Python semantics cited: str.split(' '), list.index, range(n)[slice] (PySlice_AdjustIndices, proved equal to the "
+    "language reference's description in slice_indices_are_python), dict as ctx, isinstance(batch, (list, tuple)); "
+    "exercised against CPython on every case",
+    "harness/c01.py: stack builder with token loaders, depth-0 call log and call stamps, canonicalisation of samples; "
+    "Check.v (tab_load: table-driven loaders incl. the call-stamp convention) is test scaffolding, not part of the proofs",
 ]
 ASSUMPTIONS = [
     "valid indices: ints in [-len, len), lists of such, any slice (step 0 = ValueError); idx < -len or >= len is handed "
-    "to the loaders unchecked by ModeWrapper and is outside the property",
-    "'ctx.<key>' items placed after an item that records the key (earlier / never recorded keys: KeyError is claimed "
+    "to the loaders unchecked by ModeWrapper (mw[-len-1] reaches the dataset as -1) and is outside the property",
+    "'ctx.<key>' items placed after an item that records the key (never / not yet recorded keys: KeyError is claimed "
     "where no call order could have recorded it, otherwise only model agreement)",
-    "stacks declaring jointly loaded items: every named item of the mode and the joint loader implemented on the "
-    "outermost wrapper's class (the constructor rejects anything else: compared with the model, nothing else claimed)",
-    "loaders are deterministic in (item, index) and the joint loader's j-th component equals the j-th member's own "
-    "item (theorem getitem_positions_pure states this hypothesis; harness loaders satisfy it by construction)",
+    "fused_operations pass the constructor's two assertions and contain no empty group (groups_ok); stacks declaring "
+    "jointly loaded items: every loader call the mode needs (own loaders and joint loaders) is implemented on the "
+    "outermost wrapper's class -- the oracle also claims that the constructor rejects everything else",
+    "getitem_positions_pure: loaders deterministic in (item, index), the joint loader's j-th component equals the j-th "
+    "member's own item, group members and joint loader names are loader names (not 'index' / 'ctx.*'); the general "
+    "theorems (getitem_positions, getitem_is_spec_sample, ctx_fresh, shape, sequence semantics) need none of this",
     "ModeWrapper.__getattr__ delegation of arbitrary attributes, collators, worker_init_fn are not part of this check",
 ]
 ALLOWED_AXIOMS = []
@@ -47,7 +55,8 @@ RULE = ("random stacks: root of size 0-6 with 2-5 token items (KDDataset or Torc
         "subclasses overriding/adding items with 0-2 ctx writes each incl. index-dependent keys, KDSubset with repeats), "
         "0-2 fused groups of 1-3 ops (occasionally containing 'index', unimplemented, duplicated or declared below the "
         "outermost layer); modes of 1-7 items with index / ctx.* / duplicates / permutations around the groups, a few "
-        "unavailable or empty items; histories of 1-6 accesses int / negative / slice(start,stop,step incl. None, "
+        "unavailable or empty items; 40% of the stacks stamp every loader call with a per-sample call counter kept in the ctx "
+        "(makes visible which load was delivered and that group members come from one joint load); histories of 1-6 accesses int / negative / slice(start,stop,step incl. None, "
         "out-of-range, negative, 0) / list, then iteration and len; return_ctx on/off; 0-3 static-helper and 0-2 "
         "TorchWrapper probes.  non-trivial = constructed and at least one sample returned; distinct by (item pattern "
         "relative to the groups, layer kinds, rc, index forms)")
@@ -102,7 +111,30 @@ def declared_groups(case):
 
 
 def declared_req(case):
-    return any(L["t"] == "wrap" and L["req"] for L in case["layers"])
+    return bool(case["root"].get("req")) or any(L["t"] == "wrap" and L["req"] for L in case["layers"])
+
+
+def stamped(case):
+    """call stamps: a loader called from outside reads the counter ctx['#'], increments it and pairs every item it
+    returns with the counter it read"""
+    return bool(case.get("stamp")) and not is_torch(case)
+
+
+def stamp_value(v, n):
+    return tuple((m, n) for m in v) if isinstance(v, tuple) else (v, n)
+
+
+def exp_direct(case, name, idx):
+    """(value, ctx) of a direct call stack.getitem_<name>(idx, {}) on the declared stack"""
+    w = []
+    v = exp_load(case, n_levels(case), name, idx, w)
+    d = {}
+    if stamped(case):
+        v = stamp_value(v, 0)
+        d["#"] = 1
+    for k, val in w:
+        d[k] = val
+    return v, d
 
 
 def wkey(key, per, idx):
@@ -164,31 +196,47 @@ def cand_names(case):
     return seen
 
 
-def in_domain(case):
-    """the property's domain: fused_operations well-formed, every named item (and fired joint loader) available
-    where the constructor looks for it"""
-    groups = declared_groups(case)
+def groups_wellformed(groups):
     flat = [op for g in groups for op in g]
-    if any(len(g) == 0 for g in groups) or len(set(flat)) != len(flat):
-        return False
     joined = ["".join(g) for g in groups]
-    if len(set(joined)) != len(joined):
-        return False
-    items = items_of(case)
+    return all(len(g) > 0 for g in groups) and len(set(flat)) == len(flat) and len(set(joined)) == len(joined)
+
+
+def planned_calls(items, groups):
+    """the loader calls one sample needs, by occurrence counting (groups well-formed): the k-th complete set of a
+    group is loaded jointly where the k-th occurrence of its first member stands; a member standing before that
+    place is (also) loaded on its own; everything else is its own loader"""
+    calls = []
+    for p, s in enumerate(items):
+        g = next((g for g in groups if s in g), None)
+        k = items[:p].count(s)
+        if g is not None and k < min(items.count(op) for op in g):
+            if s == g[0]:
+                calls.append("".join(g))
+            elif p < [q for q, t in enumerate(items) if t == g[0]][k]:
+                calls.append(s)
+        else:
+            calls.append(s)
+    return calls
+
+
+def missing_loaders(case):
+    """named loader calls of the mode that are not available where the constructor looks for them"""
+    groups = declared_groups(case)
     lvl = n_levels(case)
-    for s in items:
-        if is_named(s):
-            if groups:
-                if not on_type(case, s):
-                    return False
-            elif not avail(case, lvl, s):
-                return False
-    for g in groups:
-        if all(op in items for op in g):
-            nm = "".join(g)
-            if not is_named(nm) or not on_type(case, nm):
-                return False
-    return True
+    return [c for c in planned_calls(items_of(case), groups)
+            if is_named(c) and not (on_type(case, c) if groups else avail(case, lvl, c))]
+
+
+def in_domain(case):
+    """the property's domain: fused_operations well-formed, every loader call of the mode available where the
+    constructor looks for it (with declared groups: on the outermost wrapper's class)"""
+    groups = declared_groups(case)
+    if not groups_wellformed(groups):
+        return False
+    if any(not is_named("".join(g)) for g in groups):
+        return False
+    return not missing_loaders(case)
 
 
 # ---------------------------------------------------------------------------
@@ -243,37 +291,52 @@ def renderable(e):
 # ---------------------------------------------------------------------------
 # the real stack
 # ---------------------------------------------------------------------------
+def _enter(st, name, ctx):
+    """depth-0 bookkeeping: call log and call stamp"""
+    if st["depth"] != 0:
+        return None
+    st["log"].append(name)
+    if st["stamp"] and ctx is not None:
+        n = ctx.get("#", 0)
+        ctx["#"] = n + 1
+        return n
+    return None
+
+
 def _mk_loader(level, name, writes, inner_has, st):
     def getitem(self, idx, ctx=None):
-        if st["depth"] == 0:
-            st["log"].append(name)
+        n = _enter(st, name, ctx)
         st["depth"] += 1
         try:
-            if level == 0:
-                val = f"{name}@{idx}"
-            elif inner_has:
-                val = f"w{level}.{name}({getattr(self.dataset, 'getitem_' + name)(idx, ctx)})"
-            else:
-                val = f"w{level}.{name}@{idx}"
-            if ctx is not None:
-                for key, per in writes:
-                    ctx[wkey(key, per, idx)] = wval(key, level, name, idx)
-            return val
+            val = body(self, idx, ctx)
         finally:
             st["depth"] -= 1
+        return val if n is None else stamp_value(val, n)
+
+    def body(self, idx, ctx):
+        if level == 0:
+            val = f"{name}@{idx}"
+        elif inner_has:
+            val = f"w{level}.{name}({getattr(self.dataset, 'getitem_' + name)(idx, ctx)})"
+        else:
+            val = f"w{level}.{name}@{idx}"
+        if ctx is not None:
+            for key, per in writes:
+                ctx[wkey(key, per, idx)] = wval(key, level, name, idx)
+        return val
     getitem.__name__ = "getitem_" + name
     return getitem
 
 
 def _mk_joint(name, ops, st):
     def getitem(self, idx, ctx=None):
-        if st["depth"] == 0:
-            st["log"].append(name)
+        n = _enter(st, name, ctx)
         st["depth"] += 1
         try:
-            return tuple(idx if op == "index" else getattr(self, "getitem_" + op)(idx, ctx) for op in ops)
+            val = tuple(idx if op == "index" else getattr(self, "getitem_" + op)(idx, ctx) for op in ops)
         finally:
             st["depth"] -= 1
+        return val if n is None else stamp_value(val, n)
     getitem.__name__ = "getitem_" + name
     return getitem
 
@@ -298,6 +361,8 @@ def build_stack(case, st):
         ds = TorchWrapper(PlainTorch(), mode=" ".join(titems))
     else:
         ns = {"__len__": lambda self: size}
+        if root.get("req"):
+            ns["requires_propagate_ctx"] = property(lambda self: True)
         for name, writes in root["items"].items():
             ns["getitem_" + name] = _mk_loader(0, name, writes, False, st)
         ds = type("RootDataset", (KDDataset,), ns)()
@@ -337,7 +402,7 @@ def _idx_of(acc):
 
 
 def run_impl(case):
-    st = {"depth": 0, "log": []}
+    st = {"depth": 0, "log": [], "stamp": stamped(case)}
     ds = build_stack(case, st)
     from kappadata.wrappers.mode_wrapper import ModeWrapper
     obs = {}
@@ -465,6 +530,19 @@ def _sample_facts(case, j):
     return out
 
 
+def _unstamp(case, got):
+    """-> (plain component, stamp | None); None when a stamped stack returned an unstamped named item"""
+    if not stamped(case):
+        return got, None
+    if "t" in got and len(got["t"]) == 2 and "i" in got["t"][1] and "t" not in got["t"][0]:
+        return got["t"][0], got["t"][1]["i"]
+    if "t" in got and all("t" in m and len(m["t"]) == 2 and "i" in m["t"][1] for m in got["t"]):
+        # value of a joint loader used as an item of its own: every member stamped
+        ns = {m["t"][1]["i"] for m in got["t"]}
+        return {"t": [m["t"][0] for m in got["t"]]}, (ns.pop() if len(ns) == 1 else None)
+    return None
+
+
 def check_sample(case, j, e):
     """None or a description of why sample e is not sample j of the mode"""
     items = items_of(case)
@@ -480,6 +558,7 @@ def check_sample(case, j, e):
     for s, (v, w) in facts.items():
         for k, val in w:
             cand.setdefault(k, set()).add(val)
+    stamps = {}
     for p, s in enumerate(items):
         got = comps[p]
         if s == "index":
@@ -491,16 +570,53 @@ def check_sample(case, j, e):
                 return (f"sample {j} position {p} ('{s}'): {got} was not recorded under '{key}' by a loader of this "
                         f"sample (recorded: {sorted(cand.get(key, []))})")
         else:
-            if got != enc(facts[s][0]):
+            us = _unstamp(case, got)
+            if us is None:
+                return (f"sample {j} position {p} ('{s}'): {got} carries no call stamp although the stack requires "
+                        f"ctx propagation (the loader was not handed the sample's ctx)")
+            if us[0] != enc(facts[s][0]):
                 return f"sample {j} position {p} ('{s}'): expected {enc(facts[s][0])}, got {got}"
+            stamps[p] = us[1]
+    if stamped(case):
+        # members of a complete set of a declared group come from ONE joint load: equal call stamps
+        for g in declared_groups(case):
+            for k in range(min(items.count(op) for op in g)):
+                pos = [[p for p, s in enumerate(items) if s == op][k] for op in g]
+                got = {stamps.get(p) for p in pos}
+                if len(got) != 1 or None in got:
+                    return (f"sample {j}: the members {g} at positions {pos} carry the call stamps "
+                            f"{[stamps.get(p) for p in pos]}: they were not delivered by one joint load")
     if rc:
-        keys = [k for k, _ in ctx]
+        keys = [k for k, _ in ctx if not (k == "#" and stamped(case))]
         if sorted(keys) != sorted(cand):
             return (f"sample {j}: returned ctx has keys {sorted(keys)}, the loaders of this sample record "
                     f"{sorted(cand)} (foreign or missing entries)")
         for k, v in ctx:
+            if k == "#" and stamped(case):
+                continue
             if "s" not in v or v["s"] not in cand[k]:
                 return f"sample {j}: ctx['{k}'] = {v} is not what a loader of this sample recorded ({sorted(cand[k])})"
+    return None
+
+
+def rejected_as_documented(case, obs):
+    """outside the domain the constructor rejects: duplicated fused ops (its two assertions); a named item the
+    stack cannot load; with declared groups, a named item or fired joint loader that the outermost wrapper's class
+    does not implement (otherwise the outermost wrapper would be skipped)"""
+    groups = declared_groups(case)
+    flat = [op for g in groups for op in g]
+    if any(len(g) == 0 for g in groups):
+        return None
+    if len(set(flat)) != len(flat):
+        if obs["init"] != 1:
+            return f"fused_operations {groups} name an item twice but the constructor did not reject them (code {obs['init']})"
+        return None
+    if not groups_wellformed(groups) or any(not is_named("".join(g)) for g in groups):
+        return None
+    missing = missing_loaders(case)
+    if missing and obs["init"] == 0:
+        where = "on the outermost wrapper's class" if groups else "in the stack"
+        return f"mode {case['mode']!r} was accepted although getitem_{missing[0]} is not implemented {where}"
     return None
 
 
@@ -591,11 +707,7 @@ def oracle(case, obs):
         return f"hasattr(type(stack), getitem_*) true for {sk['has_type']}"
     for s in sk["has"]:
         for i in range(n):
-            w = []
-            v = exp_load(case, lvl, s, i, w)
-            d = {}
-            for k, val in w:
-                d[k] = val
+            v, d = exp_direct(case, s, i)
             if obs["direct"][s][i] != [enc(v), enc(d)["d"]]:
                 return (f"stack.getitem_{s}({i}, ctx) returned {obs['direct'][s][i]}, the declared stack yields "
                         f"{[enc(v), enc(d)['d']]}")
@@ -613,7 +725,7 @@ def oracle(case, obs):
             return f"TorchWrapper(mode={t['tmode']!r}).getitem_{t['item']} on {t['tup']} returned {o}, expected {exp}"
     # 3. the wrapped dataset
     if not in_domain(case):
-        return None
+        return rejected_as_documented(case, obs)
     if obs["init"] != 0:
         return f"the constructor rejected mode {case['mode']!r} although every item is available (code {obs['init']})"
     items = items_of(case)
@@ -656,12 +768,10 @@ def oracle(case, obs):
         if msg:
             return msg
         if not is_torch(case):
-            for g in groups:
-                nm = "".join(g)
-                exp_calls = len(idxs) * (min(items.count(op) for op in g) + items.count(nm))
-                if o["log"].count(nm) != exp_calls:
-                    return (f"{what}: the joint loader getitem_{nm} was called {o['log'].count(nm)} times, the mode "
-                            f"holds {exp_calls // max(len(idxs), 1)} complete set(s) of {g} per sample (calls: {o['log']})")
+            exp_log = [c for c in planned_calls(items, groups) if is_named(c)] * len(idxs)
+            if o["log"] != exp_log:
+                return (f"{what}: the stack was asked for {o['log']}; the mode needs, per sample, "
+                        f"{exp_log[:len(exp_log) // max(len(idxs), 1)]} (joint loads where a complete set of a group stands)")
     it = obs["iter"]
     stat = [keyerror_status(case, j) for j in range(n)]
     if isinstance(it, dict):
@@ -799,7 +909,7 @@ def coq_case(case, obs):
         c_len=n, c_groups=[[cstr(op) for op in g] for g in declared_groups(case)], c_req=declared_req(case),
         c_has_type=[cstr(s) for s in names if on_type(case, s)],
         c_has=[cstr(s) for s in names if avail(case, lvl, s)],
-        c_tab=tab, c_mode=cstr(case["mode"]), c_rc=rc, c_init=Nat(obs["init"]), c_plan=plan,
+        c_tab=tab, c_stamp=stamped(case), c_mode=cstr(case["mode"]), c_rc=rc, c_init=Nat(obs["init"]), c_plan=plan,
         c_prop=bool(obs.get("prop", False)), c_hist=hist,
         c_iter=Opt([cres(e, nitems, rc) for e in it]) if it is not None else Raw("None"),
         c_lenobs=obs.get("lenobs", n), c_helpers=helpers, c_torch=torch))
@@ -967,12 +1077,25 @@ def gen_case(rng, big=False):
     case["hist"] = [gen_access(rng, n) for _ in range(rng.randint(1, 6))]
     case["helpers"] = [gen_helper(rng) for _ in range(rng.choice([0, 0, 1, 2, 3]))]
     case["torch"] = [gen_torch(rng) for _ in range(rng.choice([0, 0, 0, 1, 2]))]
+    if not torch_root and rng.random() < 0.4 and not any("index" in g for g in groups):
+        # call stamps need a ctx on every call: some layer requires ctx propagation
+        case["stamp"] = True
+        wraps = [L for L in layers if L["t"] == "wrap"]
+        if not declared_req(case):
+            if wraps and rng.random() < 0.5:
+                rng.choice(wraps)["req"] = True
+            else:
+                root["req"] = True
     return case
 
 
-def _mk(size, root_items, layers, mode, rc, hist):
-    return {"size": size, "root": {"items": root_items}, "layers": layers, "mode": mode, "rc": rc, "hist": hist,
-            "helpers": [], "torch": []}
+def _mk(size, root_items, layers, mode, rc, hist, stamp=False):
+    c = {"size": size, "root": {"items": root_items}, "layers": layers, "mode": mode, "rc": rc, "hist": hist,
+         "helpers": [], "torch": []}
+    if stamp:
+        c["stamp"] = True
+        c["root"]["req"] = True
+    return c
 
 
 def directed_cases():
@@ -991,7 +1114,8 @@ def directed_cases():
     for g, its in pools:
         for perm in sorted(set(itertools.permutations(its))):
             for rc in (False, True):
-                out.append(_mk(3, root, [fused_layer([g])], " ".join(perm), rc, hist))
+                out.append(_mk(3, root, [fused_layer([g])], " ".join(perm), rc, hist, stamp=rc))
+            out.append(_mk(3, root, [fused_layer([g])], " ".join(perm), False, hist[:2], stamp=True))
     for its in (["x"], ["class"], ["x", "semseg"], ["index"], ["ctx.q", "x"], ["x", "ctx.q"], ["x", "class", "ctx.m.1"]):
         for rc in (False, True):
             out.append(_mk(3, root, [fused_layer([["x", "class"]])], " ".join(its), rc, hist))
@@ -1004,6 +1128,7 @@ def directed_cases():
     root4["y"] = []
     for md in ("y class x semseg index", "semseg x y class", "y semseg class x y", "x y", "class ctx.k y x semseg ctx.m"):
         out.append(_mk(4, root4, [two], md, True, hist))
+        out.append(_mk(4, root4, [two], md, False, hist, stamp=True))
     inner = fused_layer([["x", "class"]])
     outer = {"t": "wrap", "impl": {"x": [], "class": []}, "fused": [], "joint": {"xclass": ["x", "class"]}, "req": True}
     out.append(_mk(3, root, [inner, outer], "class index x", False, hist))
@@ -1054,6 +1179,7 @@ def features(case, obs):
     yield "groups=%d" % len(declared_groups(case))
     yield "items=%d" % len(items_of(case))
     yield "rc=%s" % case["rc"]
+    yield "stamped=%s" % stamped(case)
     yield "in_domain=%s" % in_domain(case)
     yield "init=%s" % obs.get("init")
     if any(L["t"] == "sub" for L in case["layers"]):
